@@ -600,16 +600,11 @@ func (p *Parser) constAssertDecl() (*ConstAssertDecl, *ParseError) {
 		return nil, &ParseError{Message: "expected 'const_assert'", Token: p.peek()}
 	}
 
-	// const_assert can optionally have parentheses: const_assert(expr) or const_assert expr
-	hasParen := p.match(TokenLeftParen)
+	// const_assert(expr) is const_assert followed by a parenthesised expression; the
+	// parentheses belong to the expression: const_assert (A + 1) == 3;
 	cond, err := p.expression()
 	if err != nil {
 		return nil, err
-	}
-	if hasParen {
-		if err := p.expectErr(TokenRightParen); err != nil {
-			return nil, err
-		}
 	}
 
 	if err := p.expectSemicolon(); err != nil {
